@@ -137,6 +137,10 @@ func shortStack(b []byte) string {
 // totalityOracle: parse through every entry point, exactly one of (query, error); every parsed query is evaluated
 // against every dataset through every route, under recover. Returns (parsedSomewhere, reachedTyping, violation).
 func totalityOracle(text string) (parsed bool, typing bool, violation error) {
+	return totalityOracleOpt(text, true)
+}
+
+func totalityOracleOpt(text string, withDebugSwitch bool) (parsed bool, typing bool, violation error) {
 	e := c10Environment()
 	// 1. ast.Parse against the bolt store's symbol types
 	var q ast.Query
@@ -154,6 +158,24 @@ func totalityOracle(text string) (parsed bool, typing bool, violation error) {
 	} else {
 		parsed, typing = true, true
 	}
+	// 1b. the parser's debug switch only adds diagnostics: it must not change whether the text is accepted
+	if !withDebugSwitch {
+		goto memTypes
+	}
+	if err := guarded("ast.Parse with EnableQueryDebug", func() {
+		ast.EnableQueryDebug.Store(true)
+		defer ast.EnableQueryDebug.Store(false)
+		qd, derr := ast.Parse(e.schema.People, text)
+		if (qd == nil) == (derr == nil) {
+			panic(fmt.Sprintf("query=%v err=%v: exactly one must be set", qd, derr))
+		}
+		if (derr == nil) != (perr == nil) {
+			panic(fmt.Sprintf("accepted=%v with the debug switch on, accepted=%v with it off (errors: %v / %v)", derr == nil, perr == nil, derr, perr))
+		}
+	}); err != nil {
+		return parsed, typing, fmt.Errorf("%q: %v", text, err)
+	}
+memTypes:
 	// 2. harness symbol table (every type incl. AnyType maps), ast only
 	var qm ast.Query
 	var merr error
@@ -204,7 +226,7 @@ func totalityOracle(text string) (parsed bool, typing bool, violation error) {
 
 func runC10(c c10Case) kit.Result {
 	res := kit.Result{Classes: []string{"kind:" + c.Kind}}
-	parsed, typing, viol := totalityOracle(c.Text)
+	parsed, typing, viol := totalityOracleOpt(c.Text, c.Kind != "tokens")
 	if viol != nil {
 		res.Err = viol
 		return res
@@ -305,7 +327,7 @@ func c10Words(t *rapid.T, l string, depth int) []string {
 		lhs = "count(" + sym + ")"
 	case 8:
 		if depth > 0 {
-			lhs = "count(from " + sym + " where " + strings.Join(c10Words(t, l+"sq", depth-1), " ") + ")"
+			lhs = "count(from " + sym + " where " + strings.Join(append(c10Words(t, l+"sq", depth-1), c10Tail(t, l+"sqt")...), " ") + ")"
 		} else {
 			lhs = "count(" + sym + ")"
 		}
@@ -316,7 +338,7 @@ func c10Words(t *rapid.T, l string, depth int) []string {
 			return []string{"isEmpty(" + sym + ")"}
 		case 1:
 			if depth > 0 {
-				return []string{"isEmpty(from " + sym + " where " + strings.Join(c10Words(t, l+"sq", depth-1), " ") + ")"}
+				return []string{"isEmpty(from " + sym + " where " + strings.Join(append(c10Words(t, l+"sq", depth-1), c10Tail(t, l+"sqt")...), " ") + ")"}
 			}
 			return []string{sym}
 		case 2:
